@@ -15,6 +15,7 @@ import (
 	"bytes"
 	"encoding/hex"
 	"fmt"
+	"hash/crc32"
 	"io"
 	"os"
 	"path/filepath"
@@ -105,14 +106,15 @@ type c19Ev struct {
 }
 
 type c19Scenario struct {
-	launch   string // ok | fail (work dir missing) | chooser (no path configured, no dialog tool) | absent (helper not on PATH)
-	autoexit int    // -1: the helper waits for commands; otherwise it exits at once with this code
-	evs      []c19Ev
-	horizon  int
-	ended    bool // the script contains an event after which the terminal must come back
-	probeOut []byte
-	probeIn  []byte
-	tags     []string
+	launch     string // ok | fail (work dir missing) | chooser (no path configured, no dialog tool) | absent (helper not on PATH)
+	autoexit   int    // -1: the helper waits for commands; otherwise it exits at once with this code
+	evs        []c19Ev
+	horizon    int
+	ended      bool // the script contains an event after which the terminal must come back
+	probeOut   []byte
+	probeTyped [][]byte // the three typed texts of the probe
+	probeStart int      // nominal time of the first probe event
+	tags       []string
 }
 
 func (sc *c19Scenario) modelArgs(readerr string) []string {
@@ -185,15 +187,16 @@ var (
 )
 
 type c19Result struct {
-	canon     string
-	readerr   string // per session: "1" if the reader reported a read error at the helper's exit
-	term      []string
-	srv       []string
-	passMs    int // time from the last scripted event to the first cleanup "\r" (or -1)
-	probeOut  bool
-	probeIn   bool
-	startedOn [][]byte // chunks right after whose forwarding the cursor was hidden
-	driftMs   int      // how late the harness itself was with its worst scripted event
+	canon      string
+	readerr    string // per session: "1" if the reader reported a read error at the helper's exit
+	term       []string
+	srv        []string
+	passMs     int // time from the last scripted event to the first cleanup "\r" (or -1)
+	probeOut   bool
+	probeTyped []bool   // which typed probe texts reached the server unchanged
+	probeCtrlC int      // how many of the probe's two lone Ctrl-C bytes reached the server
+	startedOn  [][]byte // chunks right after whose forwarding the cursor was hidden
+	driftMs    int      // how late the harness itself was with its worst scripted event
 }
 
 func c19TermItem(b []byte) (string, bool) {
@@ -239,7 +242,6 @@ func c19SrvItem(b []byte) string {
 	}
 	return "d" + hx(b)
 }
-
 
 // c19Run executes one scenario on a fresh filter.  PATH and C19_HELPER are process wide
 // and set by the caller.
@@ -340,6 +342,7 @@ func c19Run(sc *c19Scenario) (res c19Result) {
 		}
 		fmt.Fprintf(os.Stderr, "stdin %q\n", stdin)
 	}
+	res.probeTyped = make([]bool, len(sc.probeTyped))
 	res.passMs = -1
 	var prevFwd []byte
 	var readerr []string
@@ -386,8 +389,13 @@ func c19Run(sc *c19Scenario) (res c19Result) {
 			}
 			res.passMs = at - prev
 		}
-		if sc.probeIn != nil && bytes.Equal(w.b, sc.probeIn) {
-			res.probeIn = true
+		for k, p := range sc.probeTyped {
+			if bytes.Equal(w.b, p) {
+				res.probeTyped[k] = true
+			}
+		}
+		if bytes.Equal(w.b, []byte{3}) && int(w.at/time.Millisecond) >= sc.probeStart-100 {
+			res.probeCtrlC++
 		}
 	}
 	flags := "none"
@@ -618,16 +626,23 @@ func c19Ended(sc *c19Scenario) bool {
 	return !live
 }
 
-// the probe: after four quiet slots the server prints a unique text, one slot later the
-// user types a unique text; the run ends 700 ms after that
+// the probe, judged on the real filter only (c19Oracles): after four slots (1.6 s) in which
+// the server writes nothing the USER goes first - a text, a lone Ctrl-C, a text, a lone
+// Ctrl-C, the remote still silent - then the server prints a unique text, then the user
+// types once more; the run ends 700 ms after that
 func c19AddProbe(sc *c19Scenario, t, slot int) {
-	sc.probeOut = c19Uniq("PROBE-OUT-")
-	sc.probeIn = c19Uniq("probe-in-")
 	t += 4 * slot
-	sc.evs = append(sc.evs, c19Ev{t: t, kind: 's', data: sc.probeOut})
-	t += slot
-	sc.evs = append(sc.evs, c19Ev{t: t, kind: 'i', data: sc.probeIn})
-	sc.horizon = t + 700
+	sc.probeStart = t
+	sc.probeOut = c19Uniq("PROBE-OUT-")
+	sc.probeTyped = [][]byte{c19Uniq("probe-in-a-"), c19Uniq("probe-in-b-"), c19Uniq("probe-in-c-")}
+	sc.evs = append(sc.evs,
+		c19Ev{t: t, kind: 'i', data: sc.probeTyped[0]},
+		c19Ev{t: t + slot, kind: 'i', data: []byte{3}},
+		c19Ev{t: t + 2*slot, kind: 'i', data: sc.probeTyped[1]},
+		c19Ev{t: t + 3*slot, kind: 'i', data: []byte{3}},
+		c19Ev{t: t + 4*slot, kind: 's', data: sc.probeOut},
+		c19Ev{t: t + 5*slot, kind: 'i', data: sc.probeTyped[2]})
+	sc.horizon = t + 5*slot + 700
 }
 
 // hand-written scenarios: the defect of the pinned code and the paths the property text names
@@ -667,6 +682,14 @@ func c19Corpus(c *ctx) []*c19Scenario {
 		mk("ok", -1, true, "silent-helper-ctrl-c", c19Ev{t: 0, kind: 's', data: hdr(up)},
 			c19Ev{t: 400, kind: 's', data: []byte("ZRQINIT again")}, c19Ev{t: 800, kind: 'i', data: []byte{3}},
 			c19Ev{t: 1200, kind: 's', data: append([]byte("srv-cancel-echo"), c19CancelFull...)})
+		// a helper that ignores the cancel sequence on its stdin, never writes and just sleeps:
+		// after Ctrl-C only the scheduled kill ends it; the server says nothing any more
+		mk("ok", -1, true, "deaf-helper-ctrl-c-quiet-server", c19Ev{t: 0, kind: 's', data: hdr(up)},
+			c19Ev{t: 400, kind: 'i', data: []byte{3}})
+		// the helper fails, the server says nothing any more
+		mk("ok", -1, true, "helper-exit-3-quiet-server", c19Ev{t: 0, kind: 's', data: hdr(up)},
+			c19Ev{t: 400, kind: 'x', code: 3})
+		mk("ok", 1, true, "helper-exits-at-once-1-quiet-server", c19Ev{t: 0, kind: 's', data: hdr(up)})
 		// the server cancels after the helper has started; the helper exits 1 on that
 		mk("ok", -1, true, "server-cancels-late", c19Ev{t: 0, kind: 's', data: hdr(up)},
 			c19Ev{t: 400, kind: 's', data: c19CancelFull}, c19Ev{t: 800, kind: 'x', code: 1})
@@ -690,10 +713,7 @@ func c19Slow(c *ctx) []*c19Scenario {
 			sc.evs = append(sc.evs, c19Ev{t: 400, kind: 's', data: []byte("ZFILE-ish data")})
 		}
 		// timeout at 20.4 s (+0.15 for a download: armed at launch... re-armed at 400), kill +0.5 s, cleanup +0.5 s
-		sc.probeOut = c19Uniq("PROBE-OUT-")
-		sc.probeIn = c19Uniq("probe-in-")
-		sc.evs = append(sc.evs, c19Ev{t: 22200, kind: 's', data: sc.probeOut}, c19Ev{t: 22600, kind: 'i', data: sc.probeIn})
-		sc.horizon = 23300
+		c19AddProbe(sc, 20600, 400) // first probe event at 22.2 s
 		out = append(out, sc)
 	}
 	return out
@@ -753,6 +773,21 @@ func c19ParseReplay(spec string) *c19Scenario {
 			sc.evs = append(sc.evs, ev)
 		}
 	}
+	// recognise the probe tail (text, ^C, text, ^C, server text, text) so that the direct
+	// oracles judge the replay too
+	if n := len(sc.evs); n >= 6 {
+		p := sc.evs[n-6:]
+		isC := func(e c19Ev) bool { return e.kind == 'i' && len(e.data) == 1 && e.data[0] == 3 }
+		if p[0].kind == 'i' && isC(p[1]) && p[2].kind == 'i' && isC(p[3]) && p[4].kind == 's' && p[5].kind == 'i' {
+			all := sc.evs
+			sc.evs = all[:n-6]
+			sc.ended = c19Ended(sc)
+			sc.evs = all
+			sc.probeStart = p[0].t
+			sc.probeTyped = [][]byte{p[0].data, p[2].data, p[5].data}
+			sc.probeOut = p[4].data
+		}
+	}
 	return sc
 }
 
@@ -773,7 +808,12 @@ func genZmodemGroup(c *ctx) {
 		c19Debug = true
 		r := c19Run(sc)
 		fmt.Fprintln(os.Stderr, r.canon)
-		c.emit(true, "zmodem_run", r.canon, append([]string{"1"}, sc.modelArgs(r.readerr)...)...)
+		args := append([]string{"1"}, sc.modelArgs(r.readerr)...)
+		c.emit(true, "zmodem_run", r.canon, args...)
+		c19Oracles(c, sc, &r, args)
+		for _, v := range c.violations {
+			fmt.Fprintf(os.Stderr, "VIOLATED %s: %s\n", v["key"], v["what"])
+		}
 		return
 	}
 	c19Detect(c)
@@ -860,31 +900,44 @@ func genZmodemGroup(c *ctx) {
 }
 
 func c19Oracles(c *ctx, sc *c19Scenario, r *c19Result, args []string) {
-	detail := fmt.Sprintf("scenario launch=%s autoexit=%d events=%s horizon=%d; observed %s",
-		sc.launch, sc.autoexit, args[len(args)-1], sc.horizon, r.canon)
-	earlyCtrlC := false
-	for i, e := range sc.evs {
-		if i > 0 && e.kind == 'i' && len(e.data) == 1 && e.data[0] == 3 && sc.evs[i-1].kind == 's' && e.t == sc.evs[i-1].t+40 {
-			earlyCtrlC = true
+	detail := fmt.Sprintf("scenario launch=%s autoexit=%d events=%s horizon=%d; observed %s; replay: C19_REPLAY='%s|%s|1|%d|%s'",
+		sc.launch, sc.autoexit, args[len(args)-1], sc.horizon, r.canon,
+		sc.launch, args[2], sc.horizon, args[len(args)-1])
+	// the scenario without its probe tail identifies the failing input
+	var pre []string
+	for _, e := range sc.evs {
+		if e.t >= sc.probeStart {
+			break
+		}
+		if e.kind == 'x' {
+			pre = append(pre, fmt.Sprintf("%d:x:%d", e.t, e.code))
+		} else {
+			pre = append(pre, fmt.Sprintf("%d:%c:%s", e.t, e.kind, hx(e.data)))
 		}
 	}
-	key := func(kind string) string {
-		// one defect, two triggers: handleZmodemError runs while no helper exists (launch
-		// failure / chooser error, or Ctrl-C before the helper was started)
-		if sc.launch != "ok" || earlyCtrlC {
-			return "zmodem-launch-failure-no-cleanup"
-		}
-		return kind + ":" + strings.Join(args, "/")
-	}
+	scen := fmt.Sprintf("launch=%s/autoexit=%d/%s", sc.launch, sc.autoexit, strings.Join(pre, ";"))
+	scen = fmt.Sprintf("%08x-%s", crc32.ChecksumIEEE([]byte(scen)), scen) // replay file names are cut short
+	// Judged on the real filter only, no model involved: c19Ended says (conservatively) that
+	// a terminating event happened - helper exit with any code, launch failure, chooser
+	// error, Ctrl-C, server cancel before the helper started, no session at all - and the
+	// server then wrote nothing for 1.6 s.
 	if sc.ended {
 		c.count("oracle:session-ended")
-		if !r.probeOut {
-			c.violate(key("zmodem-probe-output-swallowed"),
-				"the session had ended and the server had been quiet for 1.6 s, yet the next server output never reached the terminal", detail)
+		for k, ok := range r.probeTyped {
+			if !ok {
+				c.violate("typed-input-swallowed:"+scen,
+					fmt.Sprintf("the session had ended and the server had written nothing for %.1f s, yet typed text #%d of the probe did not reach the server unchanged",
+						1.6+0.8*float64(k), k+1), detail)
+				break
+			}
 		}
-		if !r.probeIn {
-			c.violate(key("zmodem-typed-input-swallowed"),
-				"the session had ended 2 s before, yet typed input did not reach the server", detail)
+		if r.probeCtrlC != 2 {
+			c.violate("ctrl-c-swallowed-after-session",
+				fmt.Sprintf("the session had ended and the remote was silent, yet only %d of 2 lone Ctrl-C bytes typed afterwards reached the server (%s)", r.probeCtrlC, scen), detail)
+		}
+		if !r.probeOut {
+			c.violate("output-swallowed:"+scen,
+				"the session had ended and the server had written nothing for 3.2 s, yet its next output never reached the terminal", detail)
 		}
 		switch {
 		case r.passMs < 0:
